@@ -1332,6 +1332,10 @@ def check_image(ck, drv, s, st, case, chains, n_flip, BootImageV20, BootImageV21
                 # theorems image_section_byte_tampered_v21/_v20: one changed byte in the boot-section area is REFUSED
                 st.compare(inp, "E:rom", ans[:5], "compiled ROM model vs the theorem `image_section_byte_tampered`: a flipped bit in a "
                            "boot section (header / header MAC / MAC table / ciphertext) is refused")
+            if v21 and name in ("header_mac", "sha256"):
+                # theorems header_mac_byte_tampered_v21 / sha_byte_tampered_v21: refused with exactly this verdict
+                st.compare(inp, "E:rom:badHeaderMac" if name == "header_mac" else "E:rom:badSha", ans[:40],
+                           "compiled ROM model vs the theorems on a flipped bit in the header-MAC / SHA-256 field of an SB 2.1 file")
             if ans.startswith("ok:"):
                 f = rom_fields(ans)
                 ob = verify_obligation(f2, f)
